@@ -97,20 +97,24 @@ impl Kind for CDerefDense {}
 /// Fills a fresh storage with an arbitrary content over `ids`: every index is
 /// inserted (so every vector reaches its final, concrete length) and then an
 /// arbitrary subset is removed again.
-pub fn any_content<T: Kind>(masked: &mut MaskedStorage<T>, ids: [Index; NI]) -> Model {
+pub fn any_content<T: Kind>(masked: &mut MaskedStorage<T>, ids: [Index; NI], order: [usize; NI]) -> Model {
     let (ent0, es) = all_alive(ids);
     let env0 = Env::new(ent0);
     let mut model: Model = [None; NI];
     {
         let mut s: St<'_, T> = Storage::new(env0.fetch(), masked);
-        for i in 0..NI {
+        // insertion order is fixed per harness variant (it shapes the dense
+        // storage's permutation and the association list of the hash map model)
+        for k in 0..NI {
+            let i = order[k];
             let v = nd::u8();
             let r = s.insert(es[i], T::mk(v));
             assert!(r.is_ok(), "setup insert refused");
             forget(r);
             model[i] = Some(T::norm(v));
         }
-        for i in 0..NI {
+        for k in 0..NI {
+            let i = order[NI - 1 - k];
             if nd::bool() {
                 let r = s.remove(es[i]);
                 assert!(r.is_some(), "setup remove failed");
@@ -146,20 +150,24 @@ pub fn check_state<T: Kind>(s: &St<'_, T>, m: &Model, ids: [Index; NI], st: &[Id
 pub const NOPS: u8 = 11;
 
 /// ONE operation (`op` symbolic unless fixed) on target index `ids[t]`.
-pub fn map_step<T: Kind>(ids: [Index; NI], t: usize, fixed_op: Option<u8>)
+pub fn map_step<T: Kind>(ids: [Index; NI], order: [usize; NI], t: usize, ops: (u8, u8))
 where
     T::Storage: Default,
 {
     let mut masked = MaskedStorage::<T>::new(Default::default());
-    let mut m = any_content::<T>(&mut masked, ids);
+    let mut m = any_content::<T>(&mut masked, ids, order);
     let (ent, st) = any_entities(ids);
     let env = Env::new(ent);
     let (h, live) = any_handle(ids, &st, t);
     let x = nd::u8();
     let xn = T::norm(x);
-    let op = match fixed_op {
-        Some(o) => o,
-        None => nd::below(NOPS),
+    // the operation kind is symbolic within the group `ops.0 ..= ops.1`
+    let op = if ops.0 == ops.1 {
+        ops.0
+    } else {
+        let o = nd::u8();
+        nd::assume(o >= ops.0 && o <= ops.1);
+        o
     };
     let before = m;
     {
